@@ -40,6 +40,8 @@ def build(case):
     rows = []
     for i in range(r):
         toks = [cell(i, j, sign) for j in range(c)]
+        if case.get("index") == "text":
+            toks[0] = "T%02d" % (i + 1)  # a time-stamp-like text index: the other curves are still float columns
         if not wrap:
             rows.append(toks)
         else:
@@ -91,6 +93,8 @@ def oracle(case):
         out.cls("version-section-" + case["version_section"])
     if case.get("names"):
         out.cls("names-" + case["names"])
+    if case.get("index"):
+        out.cls("index-" + case["index"])
     out.cls("wrapped" if wrap else "unwrapped", "engine-" + case["engine"],
             "d<c" if d < c else "d>c" if d > c else "d=c", "sign-" + case.get("sign", "pos"))
     if case.get("noise"):
@@ -146,6 +150,8 @@ def grid(tier):
                             yield dict(d=d, c=c, r=r, engine=engine, sign=sign, version_section="absent")
                             if d >= 2:
                                 yield dict(d=d, c=c, r=r, engine=engine, sign=sign, names="numeric")
+                            if r <= 3:
+                                yield dict(d=d, c=c, r=r, engine=engine, sign=sign, index="text")
 
 
 def wrapped_grid(tier):
@@ -180,6 +186,8 @@ def big_cases(draw):
         if case["dlm"] is None:
             case["version_section"] = draw(st.sampled_from([None, None, None, "no-wrap-item", "absent"]))
         case["names"] = draw(st.sampled_from([None, None, None, "numeric"]))
+        if draw(st.integers(0, 5)) == 0:
+            case["index"] = "text"
     from vlib import strategies as S_
     case["scaffold"] = draw(S_.scaffold())
     nlines = r if not wrapped else r * (c // case["wrap"] + 2)
